@@ -108,6 +108,7 @@ pub fn roomy_cfg(rng: &mut Rng, flavor: Flavor) -> Cfg {
         reentrant_cb: false,
         tracing_on: false,
         cleanup_ns: 0,
+        kb_build_key_only: false,
     }
 }
 
@@ -364,6 +365,8 @@ pub struct PProfile {
     pub cancel_pct: u64,
     /// % of barriers after which the application resets the metrics itself (metrics.clear())
     pub metrics_reset_pct: u64,
+    /// single-task executor (one client): everything - client, processor, policy worker - shares one thread
+    pub force_local: bool,
     /// every handle is dropped the moment the clients are done - no quiescence first, so items
     /// may still be buffered
     pub drop_busy: bool,
@@ -410,6 +413,7 @@ impl Default for PProfile {
             get_mut_heavy: false,
             cancel_pct: 0,
             drop_busy: false,
+            force_local: false,
             metrics_reset_pct: 0,
             hold_close_pct: 0,
             hold_umc_pct: 0,
@@ -463,6 +467,7 @@ pub fn gen_p_family(prop: &str, seed: u64, pf: &PProfile) -> Plan {
     let mut rng = Rng::new(seed ^ 0x9a_77);
     let flavor = pick_flavor(&mut rng);
     let flavor = if pf.cancel_pct > 0 { Flavor::Async } else { flavor };
+    let flavor = if pf.force_local && std::env::var("DST_FLAVOR").is_err() { Flavor::AsyncLocal } else { flavor };
     let faulty = rng.chance(pf.faulty_pct, 100);
     let mut sim = sim_plan(&mut rng, faulty);
     if rng.chance(pf.vstall_pct, 100) {
@@ -1263,6 +1268,11 @@ pub fn gen_plan(prop: &str, seed: u64, variant: u64) -> Plan {
         }
         p.tags.push("tiny_cleanup_interval".into());
     }
+    // a key builder whose 128 bits only come out of build_key()
+    if matches!(p.cfg.keys, KeyMode::Collide { .. }) && (variant / 3) % 3 == 1 {
+        p.cfg.kb_build_key_only = true;
+        p.tags.push("key_builder_overrides_build_key_only".into());
+    }
     // a tracing subscriber that enables everything (process-global environment the library reads)
     if variant % 6 == 2 {
         p.cfg.tracing_on = true;
@@ -1310,7 +1320,12 @@ fn gen_plan_inner(prop: &str, seed: u64, variant: u64) -> Plan {
         "C09" if variant % 4 == 2 => gen_p_family(prop, seed, &PProfile { clients: (2, 4), keys: (1, 3), validator_pct: 100, if_present_pct: 25, lookup_pct: 15, remove_pct: 8, over_capacity_pct: 20, collide_pct: 0, ttl_pct: 25, ops: (6, 24), ..PProfile::default() }),
         "C09" => gen_ttl_family_c(prop, seed, variant % 5 == 4, true),
         "C19" => gen_diff(seed, variant),
+        // overlapping writes of few keys, Coster-valued: insert followed at once by insert_if_present
+        "C16" if variant % 3 == 1 => gen_p_family(prop, seed, &PProfile { clients: (1, 3), keys: (1, 3), coster_pct: 100, over_capacity_pct: 10, barrier_every: (3, 9), collide_pct: 0, faulty_pct: 40, ttl_pct: 10, if_present_pct: 35, remove_pct: 8, lookup_pct: 10, ops: (6, 30), sleeps: false, ..PProfile::default() }),
         "C16" => gen_p_family(prop, seed, &PProfile { clients: (1, 2), coster_pct: 60, over_capacity_pct: 50, barrier_every: (1, 3), collide_pct: 0, faulty_pct: 20, ttl_pct: 15, if_present_pct: 15, ops: (6, 30), ..PProfile::default() }),
+        // one thread for everything (single-task executor) and a tiny insert buffer: whatever waits
+        // for the processor has to let it run
+        "C10" if variant % 13 == 6 => gen_p_family(prop, seed, &PProfile { clients: (1, 1), keys: (2, 6), ops: (6, 24), wait_pct: 25, lookup_pct: 10, remove_pct: 10, if_present_pct: 5, small_buffer_pct: 100, force_local: true, chaos_clear_pct: 0, chaos_close_pct: 0, inline_clear_pct: 5, faulty_pct: 0, sleeps: false, barrier_every: (4, 12), ..PProfile::default() }),
         "C10" | "C11" | "C12" if variant % 4 == 0 => gen_enum_chaos(prop, seed, variant),
         "C18" if variant % 3 == 0 => gen_c18_lockstep(seed),
         "C18" if variant % 3 == 1 => gen_c18_typed(seed),
